@@ -2453,6 +2453,11 @@ def c15(ctx):
                 f_ = rng.choice(fs)
                 top = rng.choice([".", "./...", os.path.dirname(f_) or "."])
                 args = rng.choice([[top, f_], [f_, top], [top, f_, f_], [top, "./" + f_]])
+        if links and rng.random() < 0.3:
+            # a symbolic link named as an argument, absolutely and relatively: it is an entry of its own, not its target
+            ln = rng.choice(links)
+            args = rng.choice([[os.path.join(root, ln)], [ln], [os.path.join(root, ln) + "/..."], [os.path.join(root, ln), ln],
+                               [rng.choice(cands), os.path.join(root, ln)]])
         if rng.random() < 0.05:
             args.append("does_not_exist")
         jobs.append((k, root, cwd_name, t, args))
@@ -2597,6 +2602,101 @@ def split_tie(ctx, fcases):
                           "chain from the bytes of the patch): which '+' elision belongs to which '-' elision is decided by these places",
                           {"input": {"patches": [c["patch"]]}, "implementation": da[:1500], "model": db[:1500]})
     ctx.extra["split_disagreements"] = bad
+
+def loader_tie(ctx, n_quick=60, n_thorough=1500):
+    """Which patches a run loads, in which order, and where loading stops: the binary (descriptions on stderr name the
+    changes that applied, in order; a failure names the source and leaves the file alone) against the Lean model of
+    loadPatches / patchLoader on the same flags and the same bytes of the -P file."""
+    rng = random.Random(ctx.seed + 77)
+    names = [f"p{k}.patch" for k in range(5)]
+    # every patch appends its own number to the arguments of one call: the call in the result spells out which patches
+    # were applied, in which order, repeats included
+    mk = lambda k: f"@@\n@@\n-step(...)\n+step(..., {k})\n"
+    files = {n: mk(k) for k, n in enumerate(names)}
+    files["bad.patch"] = "@@\nvar x bogus\n@@\n-a(x)\n+b(x)\n"
+    files["sub/q.patch"] = mk(5)
+    files["a.go"] = "package a\n\nfunc f() {\n\tstep()\n}\n"
+    good = names + ["sub/q.patch"]
+    pool = names + ["sub/q.patch", "bad.patch", "missing.patch"]
+    stdin_patch = mk(6)
+    jobs = []
+    for k in range(n_quick if ctx.tier == "quick" else n_thorough):
+        flags = [rng.choice(pool if rng.random() < 0.25 else good) for _ in range(rng.choice([0, 0, 1, 2, 3]))]
+        lst = None
+        if rng.random() < 0.7:
+            lines = []
+            for _ in range(rng.randint(0, 5)):
+                r = rng.random()
+                lines.append(rng.choice(good) if r < 0.6 else rng.choice(["", "", " ", "bad.patch", "missing.patch", " p0.patch", "p1.patch ", "# p2.patch", "\t"]))
+            nl = rng.choice(["\n", "\n", "\r\n"])
+            text = nl.join(lines) + (nl if rng.random() < 0.7 and lines else "")
+            lst = text if rng.random() < 0.93 else None         # None: -P names a file that does not exist
+        stdin_ok = rng.random() < 0.8
+        jobs.append((k, flags, lst, lst is None and rng.random() < 0.0, stdin_ok))
+    def one(job):
+        k, flags, lst, _, stdin_ok = job
+        root = ctx.scratch("load")
+        cl.write_tree(root, files)
+        args = [x for f in flags for x in ("-p", f)]
+        use_list = lst is not None or (k % 11 == 5)
+        if lst is not None:
+            with open(os.path.join(root, "list.txt"), "wb") as f:
+                f.write(lst.encode())
+        if use_list:
+            args += ["-P", "list.txt"]
+        sin = (stdin_patch if stdin_ok else "@@\nvar x bogus\n@@\n-a(x)\n+b(x)\n").encode()
+        code, out, err = cl.gopatch(ctx.gopatch, root, args + ["a.go"], stdin=sin, timeout=30)
+        after = open(os.path.join(root, "a.go")).read()
+        shutil.rmtree(root, ignore_errors=True)
+        return use_list, code, err.decode("utf-8", "replace"), after
+    with ThreadPoolExecutor(max_workers=16) as ex:
+        obs = list(ex.map(one, jobs))
+    lines = []
+    for (k, flags, lst, _, stdin_ok), (use_list, code, err, after) in zip(jobs, obs):
+        lsx = ""
+        if use_list:
+            lsx = " (list \"list.txt\" " + ("none" if lst is None else '"' + lst.encode().hex() + '"') + ")"
+        lines.append(f'(case l{k} load (flags {" ".join(cl.sx_quote(f) for f in flags)}){lsx} (good {" ".join(cl.sx_quote(g) for g in good)})'
+                     + (" (stdingood 1)" if stdin_ok else "") + ")")
+    m = subprocess.run([ctx.driver], input="\n".join(lines) + "\n", stdout=subprocess.PIPE, stderr=subprocess.PIPE, text=True, timeout=600)
+    outl = m.stdout.splitlines()
+    if len(outl) != len(jobs):
+        ctx.broken("driver", f"load stream: cases {len(jobs)} model {len(outl)} {m.stderr[-300:]}")
+        return
+    num_of = {**{n: k for k, n in enumerate(names)}, "sub/q.patch": 5, "stdin": 6}
+    for (k, flags, lst, _, stdin_ok), (use_list, code, err, after), ml in zip(jobs, obs, outl):
+        ctx.evaluations += 1
+        sx = parse_sx(ml)
+        loaded, failed = sx_field(sx[2:], "loaded"), sx_field(sx[2:], "failed")
+        inp = {"flags": flags, "list_file": lst, "uses_-P": use_list, "stdin_is_a_good_patch": stdin_ok,
+               "reproduce": "patch file pK.patch appends K to the arguments of step(...) (sub/q.patch: 5, stdin: 6), bad.patch is rejected; a.go holds step(); gopatch [-p ...] [-P list.txt] a.go"}
+        if loaded is not None:
+            srcs = [x if x == "stdin" else cl.sx_unquote(x) for x in loaded]
+            ctx.count("loader:loaded")
+            if len(srcs) >= 2:
+                ctx.nontrivial.add(json.dumps([flags, lst]))
+            want = "step(" + ", ".join(str(num_of[s_]) for s_ in srcs) + ")"
+            mgot = re.search(r"step\([^)]*\)", after)
+            got = mgot.group(0) if mgot else None
+            if code != 0 or got != want:
+                ctx.violation(f"the patches of the run are not loaded as the command line says: the specification loads {srcs}, in this "
+                              f"order, so the call in a.go becomes {want}; the run exits {code} and leaves {got}",
+                              {"input": inp, "stderr": err[-800:]})
+        else:
+            ctx.count("loader:failed")
+            ctx.nontrivial.add(json.dumps([flags, lst, "fail"]))
+            what = failed[0] if failed else "?"
+            name = "list.txt" if what == "list" else ("stdin" if what == "stdin" else cl.sx_unquote(what))
+            probs = []
+            if code == 0:
+                probs.append("the run succeeds")
+            if name not in err:
+                probs.append(f"stderr does not name {name!r}")
+            if after != files["a.go"]:
+                probs.append("a.go was rewritten")
+            if probs:
+                ctx.violation(f"loading must stop at {name!r} (it cannot be opened, parsed or compiled) with a diagnostic that names it, and "
+                              f"nothing may be rewritten: " + "; ".join(probs), {"input": inp, "exit": code, "stderr": err[-800:]})
 
 def split_patch_text(p):
     """-> (desc lines, header line, meta lines, body lines) of a single-change patch"""
@@ -2773,6 +2873,8 @@ def c19(ctx):
     fcs = front_cases_with_faults(ctx, rng, n)
     res = run_front(ctx, fcs)
     split_tie(ctx, fcs)
+    # a patch source that does not load: the diagnostic names it and nothing is rewritten, wherever it stands among the sources
+    loader_tie(ctx, n_quick=40, n_thorough=800)
     cli_budget = 25 if ctx.tier == "quick" else 400
     for c, impl, model in res:
         ctx.evaluations += 1
@@ -3864,6 +3966,8 @@ def c09(ctx):
                 "trees with redundant parentheses removed; a failing step must make the combined run fail and leave the file untouched. "
                 "Non-trivial = at least two changes matched; distinct = distinct (chain, source).")
     res = engine_family(ctx, "c09", {"decisions", "status"}, n_quick=300, n_thorough=8000, golden=True)
+    # which patches a run consists of, and in which order (flags, then the -P list, or stdin): the loader against its model
+    loader_tie(ctx)
     # CLI chain check
     rng = random.Random(ctx.seed)
     cases = [c for c in gen_cases(ctx, "c09", 150 if ctx.tier == "quick" else 3000, ctx.seed + 7, golden=False) if c.get("chain")]
@@ -3882,6 +3986,10 @@ def c09(ctx):
         if kf["id"] == "F25":
             w = kf["witness"]
             todo.append(({"id": "f25", "chain": w["chain"], "src": w["src"], "src_plain": w["src_plain"]}, w.get("given_as") or "flags"))
+            w2 = kf.get("witness_2")
+            if w2:
+                plain = re.sub(r"/\*.*?\*/", "", re.sub(r"(?m)[ \t]*//.*$", "", w2["src"]), flags=re.S)
+                todo.append(({"id": "f25b", "chain": w2["chain"], "src": w2["src"], "src_plain": plain}, "flags"))
     todo.append(({"id": "f16", "chain": ["@@\nvar f identifier\n@@\n func f(...) {\n-  ...\n }\n", "@@\nvar x expression\n@@\n-x == nil\n+nil == x\n"],
                   "src": "package a\n\nfunc g() bool { return x == nil }\n\nfunc f() {\n\ta(nil, // c\n\t)\n}\n"}, "flags"))
     # witnesses of repaired defects
@@ -3921,7 +4029,8 @@ def c09(ctx):
         ctx.nontrivial.add(json.dumps(c["chain"]) + c["src"])
         if problem:
             printer_only = False
-            if c.get("src_plain") and "step " in problem and ("format.Node" in problem or "reformat" in problem or "not valid Go" in problem):
+            if c.get("src_plain") and (("step " in problem and ("format.Node" in problem or "reformat" in problem or "not valid Go" in problem))
+                                       or "give different programs" in problem):
                 # F25: is it only where the comments end up in the printed intermediate file? the same chain on the file
                 # without the injected comments must be fine
                 p2, _, _ = chain_check(ctx, dict(c, src=c["src_plain"]), how)
